@@ -482,7 +482,31 @@ def classify_cap(I, m, kind, k, lib_value):
     v2 = (spec_opt(I, kind, k, routes=keep, ub_wmax=wmax) if keep else v1)
     if same(v2, lib_value):
         return "same outcome as the spec problem restricted to the library's own repetition cap and its bound w_max on multiplicity x weight"
+    # the product encoding spends ceil(log2(w_max+1)) bits on the edge multiplicity of every counted element
+    bitcap = 2 ** math.ceil(math.log2(float(wmax) + 1)) - 1
+    sel = 0 if I.mode == "edge" else 1
+    keep3 = [r for r in keep if all(r[sel].get(e, 0) <= bitcap for e in I.X)]
+    v3 = (spec_opt(I, kind, k, routes=keep3, ub_wmax=wmax) if keep3 else (None if kind == "mpe" else spec_opt(I, kind, k, routes=[])))
+    if same(v3, lib_value):
+        return ("same outcome as the spec problem restricted to the library's own repetition cap, its bound w_max on multiplicity x weight and the "
+                "multiplicity bound 2^ceil(log2(w_max+1))-1 implied by the bit width of its product encoding")
     return None
+
+
+def fractional_cap(m):
+    """does the constructed model carry a non-integral per-edge repetition bound (an upper bound of an integer variable)?"""
+    try:
+        return any(abs(float(v) - round(float(v))) > 1e-9 for v in m.edge_upper_bounds.values())
+    except Exception:
+        return False
+
+
+def dead_nodes(I):
+    """nodes of the caller's graph that lie on no source-to-sink route"""
+    seen = set()
+    for em, nm in I.routes():
+        seen.update(nm)
+    return [v for v in I.G.nodes() if v not in seen]
 
 
 def stable_under_cap(I, kind, k, v):
@@ -541,7 +565,7 @@ def values(elems, salt, hi, wt, conserving=None):
 def dag_topologies(tier, names):
     for n in ((2, 3, 4) if tier == "quick" else (2, 3, 4, 5)):
         for gi, G in enumerate(graphs.dags(n, names)):
-            if n == 5 and gi % 24:
+            if n == 5 and gi % 8:
                 continue
             if names is graphs.NAMES2 and n == 4 and gi % 4:
                 continue
@@ -567,7 +591,7 @@ def cyc_topologies(tier, names=graphs.NAMES1):
             continue
         if len(nx.descendants(G, x)) < 3 or len(nx.ancestors(G, w)) < 3:      # every node lies on a source-to-sink walk
             continue
-        if tier == "quick" and _h(mask) % 3:
+        if tier == "quick" and _h(mask) % 2:
             continue
         yield "B", mask, E, (), ()
     yield "C", 0, [(x, y), (y, x)], (x,), (y,)
@@ -603,6 +627,7 @@ def node_version(E, salt, wt, hi, missing):
 
 
 def route_budget_ok(E, st, en, k, wt, cap=SPEC_CAP):
+    """keeps the exhaustive oracle cheap: bound on the number of explicit routes per k"""
     n = len(_routes(tuple(E), True, cap, tuple(st), tuple(en)))
     return n <= (40 if k == 1 else 30 if k == 2 else 12)
 
@@ -699,16 +724,17 @@ def _cases(tier, kind):
                     continue
                 if k == 3 and (tier == "quick" and _h(gi, 3) % 4):
                     continue
-                salt = _h(ord(fam), gi, k, wt == "int")
-                vals = values(E, salt, 2, wt)
-                edges = [[u, v, vals[i]] for i, (u, v) in enumerate(E)]
-                vs = ["plain"]
-                if tier != "quick" or salt % 2:
-                    vs.append(VARIANTS[salt % len(VARIANTS)])
-                for vn in vs:
-                    ign, sc = variant(vn, E, salt)
-                    yield dict(edges=edges, wt=wt, k=k, cyc=True, st=list(st), en=list(en), ign=[list(e) for e in ign],
-                               sc=[[list(e), s] for e, s in sc], fam="cyc/%s/%s" % (fam, vn))
+                for wi in range(1 if tier == "quick" else 2):
+                    salt = _h(ord(fam), gi, k, wt == "int") if wi == 0 else _h(ord(fam), gi, k, wt == "int", wi)
+                    vals = values(E, salt, 2, wt)
+                    edges = [[u, v, vals[i]] for i, (u, v) in enumerate(E)]
+                    vs = ["plain"]
+                    if tier != "quick" or salt % 2:
+                        vs.append(VARIANTS[salt % len(VARIANTS)])
+                    for vn in vs:
+                        ign, sc = variant(vn, E, salt)
+                        yield dict(edges=edges, wt=wt, k=k, cyc=True, st=list(st), en=list(en), ign=[list(e) for e in ign],
+                                   sc=[[list(e), s] for e, s in sc], fam="cyc/%s/%s" % (fam, vn))
     # cyclic, colliding node names (plain only) and values on nodes (no additional starts/ends)
     for fam, gi, E, st, en in cyc_topologies(tier, graphs.NAMES2):
         if fam == "C" or _h(gi, 17) % (6 if tier == "quick" else 2):
@@ -786,8 +812,10 @@ def check(case):
     except Exception as e:           # C07 speaks about solved models only
         return dict(ok=None, nontrivial=False, what="%s raised %s: %s (C07 only constrains solved models) | %s" % (cls, type(e).__name__, str(e)[:200], I.describe()))
     if not solved:
-        return dict(ok=None, nontrivial=False, what="%s unsolved, status %s (C07 only constrains solved models; spec optimum %s) | %s" % (
-            cls, getattr(getattr(m, "solver", None), "get_model_status", lambda: "?")(), opt, I.describe()))
+        hint = [h for h, on in (("every counted value is 0", all(x == 0 for x in I.f)), ("a node lies on no source-to-sink walk", bool(dead_nodes(I))),
+                                ("non-integral repetition bound on an integer variable", I.cyc and fractional_cap(m))) if on]
+        return dict(ok=None, nontrivial=False, what="%s unsolved, status %s (C07 only constrains solved models; spec optimum %s; %s) | %s" % (
+            cls, getattr(getattr(m, "solver", None), "get_model_status", lambda: "?")(), opt, ", ".join(hint) or "no known class", I.describe()))
     sol = m.get_solution()
     rk = "walks" if I.cyc else "paths"
     R, W = sol[rk], sol["weights"]
@@ -846,7 +874,7 @@ def run(tier="quick", seed=0, chunk=0, nchunks=1):
                      rule="DAG model: all DAGs on <=4 (thorough: sampled 5) named nodes x {arbitrary values in 0..3, a conserving flow} x k in 1..3 x weight type "
                           "x {plain, one rotating variant of: ignore 1/2 edges, error_scaling 0.5/0/all 0.5/mixed, ignore+scaling}; additional starts/ends; values on nodes "
                           "(with a missing attribute); second node-naming scheme. Cyclic model: all 3-node digraphs with a cycle, sampled 4-node digraphs with two free middle nodes "
-                          "(<=6, thorough <=7 edges), cycles through additional start/end nodes, defect witnesses; values in 0..2 (float: also halves). "
+                          "(half of those with <=6 edges, thorough all with <=7 edges), cycles through additional start/end nodes, defect witnesses; values in 0..2 (float: also halves). "
                           "Oracle: exhaustive enumeration over explicit route lists, exact arithmetic. Non-trivial = at least 2 distinct candidate routes and 2 counted elements",
                      bounds="DAGs n<=%d, digraphs n<=4 with SCC-edge multiplicity <= %d at spec level (re-checked at +2 before any optimality verdict), values <=3 (cyclic <=2), k<=3"
                             % (4 if tier == "quick" else 5, SPEC_CAP))
